@@ -53,6 +53,12 @@ def write_sequence_variant():
         "utf8": "InvalidData" in nr_code,
         "exact": ".trim()" not in nr_code,
     }
+    # how is the output (temporary) file opened?  fs::File::create truncates; an OpenOptions chain only with
+    # .truncate(true)
+    code = "\n".join(l for l in body.split("\n") if not l.strip().startswith("//"))
+    om = re.search(r"let\s+mut\s+output_file\s*=\s*(.*?);", code, re.S)
+    opener = om.group(1) if om else ""
+    flags["trunc"] = ("File::create" in opener) or ("truncate(true)" in opener.replace(" ", ""))
     variant = ",".join(f"{k}={1 if v else 0}" for k, v in flags.items())
     return variant, calls
 
